@@ -80,6 +80,9 @@ def grammar_judge(chk, lang, verdict, fails, why, where='', counter=''):
 #  aliases stood at the top level of the compilation unit - was repaired in /repo (begin_package_object / begin_package always open a
 #  block named by the last segment of the package name): no entry, an 'sc-grammar' rejection under a dotless package is a plain
 #  violation again; the witness stays in WITNESSES with label None and must pass; dotless packages stay in configs())
+# (C10-swift-key-keyword - a tag / content key that is a Swift keyword printed bare as a ContainerCodingKeys case, `case case, default` -
+#  was repaired in /repo (fix 29: both keys go through swift_keyword_aware_rename): no entry; 'sw-grammar' / 'keyword' on such an enum is
+#  a plain violation; the witness is in WITNESSES with label None and decorate() draws keyword keys)
 PREDICTS = {
     'C10-scala-default': {'scala-default', 'sc-grammar'},
     'C10-scala-keyword-name': {'sc-grammar'},
@@ -120,6 +123,16 @@ SAFE_DOCS = ['has { brace ( paren [ bracket', 'closes } ) ] nothing', "uses 'sin
              'unicode \u00e9\u4e2d ok', "it's <b>html</b> & more"]
 
 
+# (tag, content) pairs drawn from SWIFT_KEYWORDS (core/src/language/swift.rs:24).  The programs are shared by the six languages, so the
+# pool keeps clear of what the OTHER back ends cannot print: Go uses the content key verbatim as a struct field name (`import interface{}`,
+# `default interface{}`: a content key that is a Go keyword gives an ill-formed Go file - a defect of the Go back end of the kind of
+# C10-go-keyword-name, observed while following fix 29 and reported, not part of any class yet), and Python declares both keys verbatim as
+# attributes of a class (`class: Literal[..]`, `in: int`: SyntaxError; likewise observed and reported): no content key that is a Go keyword, no key that is a Python keyword.  The witness of fix 29 (`case` / `default`)
+# is judged for Swift alone in WITNESSES.
+KEYWORD_KEYS = [('case', 'let'), ('default', 'self'), ('func', 'inout'), ('struct', 'init'), ('var', 'private'), ('switch', 'where'),
+                ('enum', 'static'), ('let', 'nil'), ('type', 'guard'), ('self', 'throws')]
+
+
 def decorate(rng, prog):
     """plant decorators, redaction, read-only markers and balanced type overrides; make some doc lines nasty but safe"""
     for it in prog.items:
@@ -129,6 +142,10 @@ def decorate(rng, prog):
     for it in prog.items:
         if not it.annotated:
             continue
+        if it.tag is not None and rng.random() < 0.25:
+            # tag / content keys that are keywords of Swift (fix 29 of /repo: Swift prints them as enum cases and member accesses, in back
+            # ticks; the other languages put the key in a string literal / annotation argument)
+            it.tag, it.content = rng.choice(KEYWORD_KEYS)
         c = rng.random()
         if c < 0.12:
             it.extra_attrs.append('#[typeshare(swift = "Equatable, Hashable")]')
@@ -412,10 +429,14 @@ def swift_member_names(text):
     return out
 
 
+KEYDECLS = {}      # (lang, text) -> the ContainerCodingKeys pseudo-declarations of a Swift text (see observe)
+
+
 def observe(lang, text):
     """declaring positions + template conformance from the REAL text"""
     o = extract.extract(lang, text)
     decls, labels, fails, why = [], [], [], []
+    keydecls = KEYDECLS[(lang, text)] = []
     for d in o['definitions']:
         # every declared name must be an identifier (TypeScript: a quoted property name and the wire strings of an
         # algebraic enum's alternatives are not identifier positions)
@@ -430,6 +451,10 @@ def observe(lang, text):
         if d['kind'] == 'helper':
             continue
         decls.append((d['name'], bool(d['escaped']), [(m['name'], bool(m['escaped'])) for m in d['members']]))
+        if lang == 'swift' and d.get('container_keys'):
+            # the two cases of ContainerCodingKeys declare the tag / content key: judged by the same extracted predicate, as the
+            # members of the nested enum (kept apart from `decls`, which is compared with the model's Decl observation)
+            keydecls.append(('ContainerCodingKeys', False, [(c['name'], bool(c['escaped'])) for c in d['container_keys']]))
         for p in d.get('init_params') or []:
             labels.append(p[0])
         if lang == 'scala':
@@ -467,7 +492,8 @@ def observe(lang, text):
     return decls, labels, sorted(set(fails)), why
 
 
-def kw_request(lang, decls, labels):
+def kw_request(lang, decls, labels, text=None):
+    decls = list(decls) + (KEYDECLS.get((lang, text)) or [])
     ds = Lst(decls, lambda d: f'({S(d[0])} {B(d[1])} {Lst(d[2], lambda m: f"({S(m[0])} {B(m[1])})")})')
     return f'(c10_kw {lang} {ds} {Lst(labels, S)})'
 
@@ -487,7 +513,7 @@ def judge(chk, cases, tag):
         lexq.append(f'(c10_lex {lang} {S(text)})')
         clsq.append(f'(c10_cls {lang} {S(cfg.get("package", ""))} {back.items_sx(r["ir"])})')
         obs[k] = observe(lang, text)
-        kwq.append(kw_request(lang, obs[k][0], obs[k][1]))
+        kwq.append(kw_request(lang, obs[k][0], obs[k][1], text))
         if lang == 'go':       # Go's own classifier: the finding class of the Go declaration grammar, on the IR the REAL parser produced
             gocq.append((k, f'(c10_go_cls {back.items_sx(r["ir"])})'))
         if lang == 'scala':    # likewise the finding classes of the Scala declaration grammar (Spec.C10ScGrammar.known_C10_sc_grammar)
@@ -536,7 +562,8 @@ def judge(chk, cases, tag):
         grammar_judge(chk, lang, gra[k], fails, why)
         if vf.sx_get(kwa[j], 'kw') != 'true':
             fails.append('keyword')
-            why.append('a declared name that is a keyword of the language is not escaped')
+            why.append('a declared name that is a keyword of the language is not escaped' +
+                       ''.join(f' (ContainerCodingKeys case {m[0]})' for kd in KEYDECLS.get((lang, text)) or [] for m in kd[2] if not m[1]))
         if vf.sx_get(kwa[j], 'labels') != 'true':
             fails.append('swift-label')
             why.append('init label among inout/var/let: ' + ' '.join(l for l in labels if l in ('inout', 'var', 'let')))
@@ -725,6 +752,8 @@ WITNESSES = [
     ('python', {}, '#[typeshare]\npub type A<T> = Vec<T>;\n', None),
     ('python', {}, '#[typeshare]\npub type A<T> = Vec<T>;\n#[typeshare]\npub type B<K> = HashMap<String, Vec<K>>;\n#[typeshare]\npub struct S<T> { pub a: A<T>, pub b: B<u8> }\n'
                    '#[typeshare]\npub type C = A<u8>;\n', None),
+    # fix 29 of /repo: tag / content keys that are Swift keywords are back-ticked (``case `case`, `default` ``); before: `case case, default`
+    ('swift', {}, '#[typeshare]\n#[serde(tag = "case", content = "default")]\npub enum E { A(u8), B }\n', None),
     ('kotlin', {'package': 'com.x'}, '#[typeshare]\npub struct S { #[serde(rename = "1st")] pub first: u8 }\n', 'C10-digit-name'),
     ('typescript', {}, '#[typeshare]\npub struct S { #[serde(rename = "1st")] pub first: u8, #[serde(rename = "2-fa")] pub two: u8 }\n', 'C10-digit-name'),
     ('go', {'package': 'p'}, '#[typeshare]\npub struct S { pub _1x: u8 }\n', 'C10-digit-name'),
@@ -739,6 +768,8 @@ def fixed_witness_label(lang, src):
     """the repaired class a witness with label None belongs to (only a name in the payload)"""
     if lang == 'python':
         return 'fixed:C10-python-generic-alias'
+    if lang == 'swift':
+        return 'fixed:C10-swift-key-keyword' if 'tag = "case"' in src else 'fixed:swift-digit-variant'
     return 'fixed:C10-scala-toplevel-alias' if 'pub type' in src else 'fixed:C10-scala-package-brace'
 
 
@@ -805,7 +836,7 @@ def run(chk):
     if chk.counters['fixed_witnesses_passing'] != fixed_w and not chk.violations:
         # judge() reports a failing / classified witness itself; this catches the one it would skip (no output, outside dom)
         chk.violation('witness-fixed', {'expected': fixed_w, 'passing': chk.counters['fixed_witnesses_passing']},
-                      'a witness of a repaired class (C10-scala-package-brace, C10-scala-toplevel-alias, C10-python-generic-alias) is no longer generated, inside dom_C10, in no class and well-formed', no_input=True)
+                      'a witness of a repaired class (C10-scala-package-brace, C10-scala-toplevel-alias, C10-python-generic-alias, C10-swift-key-keyword) is no longer generated, inside dom_C10, in no class and well-formed', no_input=True)
     # 1b. the class that only the IR can reach (the parser rejects tag/content on an enum without data variants)
     empty = {'kind': 'enum', 'algebraic': True, 'tag': 't', 'content': 'c', 'id': ir.mk_id('E'), 'generics': [], 'comments': [], 'variants': [],
              'decorators': [], 'is_recursive': False, 'is_redacted': False}
@@ -879,7 +910,7 @@ def replay(chk, path):
         lex = vf.model([f'(c10_lex {d["lang"]} {S(text)})'])[0]
         cls = vf.model([f'(c10_cls {d["lang"]} {S(d["cfg"].get("package", ""))} {back.items_sx(r["ir"])})'])[0]
         decls, labels, fails, why = observe(d['lang'], text)
-        kw = vf.model([kw_request(d['lang'], decls, labels)])[0]
+        kw = vf.model([kw_request(d['lang'], decls, labels, text)])[0]
         print('lexer verdict  :', vf.dump_sx(lex))
         print('classification :', vf.dump_sx(cls))
         print('keywords       :', vf.dump_sx(kw))
